@@ -9,6 +9,8 @@ import json,sys,glob,os
 rep={}
 for f in glob.glob('/verif/harness/snaps/*.go'):
     rep['/repo/snaps/zz_verif_'+os.path.basename(f)]=f
+for f in glob.glob('/verif/harness/snaps_opt/*_real.go'):
+    rep['/repo/snaps/zz_verif_hook_'+os.path.basename(f)[:-8]+'_test.go']=f
 json.dump({"Replace":rep},open(sys.argv[1],'w'))
 PY
 cd /repo && go test -c -vet=off -tags "$TAGS" -overlay "$OV" -o "$OUT" ./snaps
